@@ -104,9 +104,10 @@ def common(t1, t2):
 
 
 class CInt:
-    def __init__(self, P, fn, atoms=None, call=None, N=None, max_steps=2000, recurse=False, depth=0, mem=None, memw=None):
-        self.recurse, self.depth = recurse, depth
+    def __init__(self, P, fn, atoms=None, call=None, N=None, max_steps=2000, recurse=False, depth=0, mem=None, memw=None, max_depth=4):
+        self.recurse, self.depth, self.max_depth = recurse, depth, max_depth
         self.mem = mem                       # mem(address, interpreter) -> value of *address for integer addresses
+        self.unknown = None                  # unknown(element key) -> value for a field the rule gave no value (see all_unknown)
         self.memw = memw                     # memw(address, value, width, interpreter): a store through an integer address
         self.P, self.fn = P, fn
         self.g = P.cfg(fn)
@@ -116,10 +117,13 @@ class CInt:
         self.locals = {}
         self.params = {}
         self.ltypes = {}
+        self.statics = {}
         for n in self.g.live():
             d = n.get('decl')
             if d:
                 self.ltypes[d['id']] = d.get('type')
+                if d.get('static'):
+                    self.statics[d['id']] = d['name']
         self.max_steps = max_steps
         self.trace = []
 
@@ -187,6 +191,11 @@ class CInt:
         if k == 'local':
             if e[2] in self.locals:
                 return self.locals[e[2]]
+            if e[2] in self.statics and self.unknown is not None:
+                # a static local keeps whatever earlier calls left in it
+                v = self.unknown(('static', self.fn['name'], self.statics[e[2]]))
+                self.locals[e[2]] = v
+                return v
             key = self.atom_key(e)
             if key in self.atoms:
                 return self.atoms[key]
@@ -196,6 +205,10 @@ class CInt:
             if ep is not None:
                 if ep in self.atoms:
                     return self.atoms[ep]
+                if self.unknown is not None:
+                    v = self.unknown(ep)
+                    self.atoms[ep] = v
+                    return v
                 raise NoEval('no value for element %r' % (ep,))
         if k in ('arrow', 'dot', 'idx', 'global') or (k == 'un' and e[1] == '*'):
             key = self.atom_key(e)
@@ -240,12 +253,13 @@ class CInt:
                 except NoEval:
                     if not self.recurse:
                         raise
-            if self.recurse and self.depth < 4 and ir.callee_name(e):
+            if self.recurse and self.depth < self.max_depth and ir.callee_name(e):
                 callee = self.P.fn(ir.callee_name(e), required=False)
                 if callee is not None and callee.get('body') is not None:
                     args = [self.ev(a) for a in e[2]]
-                    sub = CInt(self.P, callee, atoms=self.atoms, call=self.call, max_steps=self.max_steps, recurse=True, depth=self.depth + 1, mem=self.mem, memw=self.memw)
+                    sub = CInt(self.P, callee, atoms=self.atoms, call=self.call, max_steps=self.max_steps, recurse=True, depth=self.depth + 1, mem=self.mem, memw=self.memw, max_depth=self.max_depth)
                     sub.atoms = self.atoms           # shared memory
+                    sub.unknown = self.unknown
                     r = sub.run(args)
                     if r[0] == 'ret':
                         return r[1]
@@ -462,7 +476,9 @@ class CInt:
                         nxt = [w for (w, l) in node['succ'] if l in ('default', 'nomatch')][0]
                     node = g.nodes[nxt]
                     continue
-                if node['expr'] is not None:
+                if node.get('decl') and node['decl'].get('static') and self.unknown is not None:
+                    pass            # the initialiser of a static local ran once, long ago: its current value is whatever earlier calls left
+                elif node['expr'] is not None:
                     try:
                         self.ev(node['expr'])
                     except NoEval:
@@ -482,3 +498,24 @@ class CInt:
                 return ('ret', None, node)
             node = g.nodes[node['succ'][0][0]]
         return ('stuck', 'step bound', node)
+
+
+def all_unknown(build, values=(0, 1 << 20), limit=32):
+    """Fields the rule's model knows nothing about (a field added to a record, say) are read as *any* value: build(oracle) is run for
+    every assignment of `values` to the keys the evaluation asks the oracle for.  Returns [(assignment, result of build)]."""
+    results = []
+    pending = [dict()]
+    while pending and len(results) < limit:
+        assign = pending.pop()
+
+        def oracle(key, assign=assign):
+            if key not in assign:
+                for v in values[1:]:
+                    alt = dict(assign)
+                    alt[key] = v
+                    pending.append(alt)
+                assign[key] = values[0]
+            return assign[key]
+        res = build(oracle)
+        results.append((dict(assign), res))
+    return results
